@@ -138,6 +138,21 @@ def main(tier):
     for g in range(0, len(texts), 16):
         groups.append({"id": "w%d" % g, "cases": [rel.case("c%d" % (g + j), t) for j, t in enumerate(texts[g:g + 16])],
                        "reps": 4 if thorough else 2, "readers": 8})
+    # projects with INCLUDE whose first validations in this process happen at the same moment (6 goroutines per
+    # project), then concurrently again
+    import c08
+    inc_cases = []
+    for n, m in enumerate([x for x in docs if x["valid"]][:(400 if thorough else 60)]):
+        fl = [f for f in c08.forms(m["doc"], m["tx"][0], rnd) if len(f) == 3 and f[2]]
+        if not fl:
+            continue
+        nm, blocks, files = fl[n % len(fl)]
+        ff = {"main.jst": b64(apidoc.render(blocks)[0])}
+        ff.update({k: b64(v) for k, v in files.items()})
+        inc_cases.append({"id": "ci%d" % n, "files": ff, "root": "main.jst"})
+    for g in range(0, len(inc_cases), 8):
+        groups.append({"id": "wi%d" % g, "cases": inc_cases[g:g + 8], "reps": 2, "readers": 0, "cold": 6})
+    chk.extra["include_projects_first_validated_concurrently"] = len(inc_cases)
     obs4 = harness("conc", groups)
     for g in groups:
         o = obs4[g["id"]]
